@@ -56,7 +56,7 @@ class Gate:
             self.pos += 1
 
 
-def build_multi(shape_sizes, seed=0, coder="lzma2", damaged=(), password=None):
+def build_multi(shape_sizes, seed=0, coder="lzma2", damaged=(), password=None, incompressible=False, shared_parent=False):
     """archive with len(shape_sizes) folders; member (f,i) has pseudo-random content of 1000*size+f bytes.
     Returns raw, names{(f,i): name}, contents, packregions"""
     import random
@@ -67,9 +67,15 @@ def build_multi(shape_sizes, seed=0, coder="lzma2", damaged=(), password=None):
     for f, sz in enumerate(shape_sizes, start=1):
         if f == 2:
             files.append({"name": "dir-between", "kind": "dir"})       # a directory between the folders' members
+            files.append({"name": "zero-ü", "kind": "empty"})          # ... and an empty file: stream-less members are reported as well
         for i, s in enumerate(sz, start=1):
-            nm = f"f{f}/m{i}-ü.bin"
-            data = bytes(R.getrandbits(8) for _ in range(97)) * (s * 10) + bytes([f, i])
+            # shared_parent: members of different folders under one directory that has no entry of its own (every worker creates it)
+            nm = f"f{f}/m{i}-ü.bin" if not shared_parent else f"shared/sub/f{f}m{i}-ü.bin"
+            if incompressible:
+                # a flipped byte ends up in a stored chunk: the decoder cannot notice, only the member's CRC does
+                data = R.randbytes(970 * s) + bytes([f, i])
+            else:
+                data = bytes(R.getrandbits(8) for _ in range(97)) * (s * 10) + bytes([f, i])
             files.append({"name": nm, "kind": "file", "data": data})
             names[(f, i)] = nm
             contents[(f, i)] = data
@@ -135,7 +141,8 @@ def run_case(case):
     wd = case["wd"]
     os.makedirs(wd, exist_ok=True)
     sizes = case["sizes"]
-    raw, names, contents = build_multi(sizes, seed=case.get("seed", 0), coder=case.get("coder", "lzma2"), damaged=case.get("damaged", []))
+    raw, names, contents = build_multi(sizes, seed=case.get("seed", 0), coder=case.get("coder", "lzma2"), damaged=case.get("damaged", []),
+                                       incompressible=case.get("incompressible", False), shared_parent=case.get("shared_parent", False))
     names_rev = {v: k for k, v in names.items()}
     path = os.path.join(wd, "a.7z")
     with open(path, "wb") as f:
@@ -199,6 +206,25 @@ def run_case(case):
                 pass
 
     P.Worker.extract_single = es
+    o_mkdir = os.mkdir
+    if case.get("mkdir_rendezvous"):
+        # two workers creating the same directory meet inside os.mkdir: the first to arrive waits a moment for a second one
+        mk_lock, mk_wait = threading.Lock(), {}
+
+        def mkdir(path, mode=0o777, *a, **kw):
+            key = os.fspath(path)
+            with mk_lock:
+                evt = mk_wait.get(key)
+                first = evt is None
+                if first:
+                    evt = mk_wait[key] = threading.Event()
+            if first:
+                evt.wait(0.4)
+            else:
+                evt.set()
+            return o_mkdir(path, mode, *a, **kw)
+
+        os.mkdir = mkdir
     o_limit = P.get_memory_limit
     if case.get("limit"):
         P.get_memory_limit = lambda: case["limit"]     # several decode iterations per member
@@ -208,7 +234,10 @@ def run_case(case):
         Cm.get_default_blocksize = lambda: case["block"]   # several reads of packed data per folder
     want = sorted(k for k in names if (not case.get("targets")) or names[k] in case["targets"])
     real_sizes = [[len(contents[(f, i)]) for i in range(1, len(sz) + 1)] for f, sz in enumerate(sizes, start=1)]
-    trace = [{"e": "arch", "sizes": real_sizes, "damaged": sorted(case.get("damaged", [])), "mode": mode, "delivered": [list(k) for k in want]}]
+    # stream-less members (directories, empty files) of a full extraction are processed and reported too; ids as SlowCallback._rec assigns them
+    streamless = [[0, 1 + sum(map(ord, nm)) % 1000] for nm in (["dir-between", "zero-ü"] if len(sizes) >= 2 and not case.get("targets") else [])]
+    trace = [{"e": "arch", "sizes": real_sizes, "damaged": sorted(case.get("damaged", [])), "mode": mode, "delivered": [list(k) for k in want],
+              "streamless": streamless}]
     try:
         src = path if mode in ("thread", "process", "two") else io.BytesIO(raw)
         objs = [py7zr.SevenZipFile(src, "r", mp=(mode == "process"))]
@@ -288,5 +317,6 @@ def run_case(case):
         return {"trace": trace, "extra": extra}
     finally:
         P.Worker.extract_single = orig_es
+        os.mkdir = o_mkdir
         P.get_memory_limit = o_limit
         Cm.get_default_blocksize = o_block
